@@ -35,8 +35,9 @@ PARTS = {'quick': 4, 'thorough': 16}
 DEPTH = {'quick': 2, 'thorough': 2}
 DEPTH3_PROGRAMS = (0, 1, 5, 10, 11, 15, 22, 23, 28)
 BOUNDS = {
-    'quick': 'depth 1: 40 programs x full alphabet (6 codes/category, 3 slice codes, 3 forms, 5 option settings); '
-             'depth 2: all distinct depth-1 states x reduced alphabet (1 code, src form)',
+    'quick': 'depth 1: 46 programs x full alphabet (6 codes/category, 3 slice codes, 3 forms, 5 option settings); '
+             'depth 2: every distinct state reached by the 2-code x (src, fst) x 2-option first-level alphabet, expanded with '
+             'the 1-code alphabet',
     'thorough': 'depth 1: all 15 codes, 7 slice codes, 12 option settings; depth 2: 3 codes x 2 forms x 2 option sets from '
                 'every distinct depth-1 state; depth 3 on 9 programs with the 1-code alphabet',
 }
@@ -45,6 +46,11 @@ BOUNDS = {
 def shards(tier):
     out = []
     for i in range(len(PROGRAMS)):
+        if tier == 'quick':  # depth 1 with the full alphabet; depth 2 from the states of a reduced first-level alphabet
+            out.append({'prog': i, 'part': [0, 1], 'depth': 1})
+            for r in range(3):
+                out.append({'prog': i, 'part': [r, 3], 'depth': 2, 'reduced_first': True})
+            continue
         for r in range(PARTS[tier]):
             out.append({'prog': i, 'part': [r, PARTS[tier]], 'depth': DEPTH[tier]})
     if tier == 'thorough':
@@ -60,6 +66,8 @@ def run_shard(desc, tier, res):
     alphas = ALPHA[tier]
     if desc['depth'] == 3:
         alphas = [ALPHA['quick'][1], ALPHA['quick'][1], ALPHA['thorough'][2]]
+    if desc.get('reduced_first'):
+        alphas = [dict(nk=2, nks=2, forms=('src', 'fst'), opts=({}, {'trivia': False})), ALPHA['quick'][1]]
 
     def on_state(root, pre, hist, cid, c2):
         res.traces += 1
